@@ -153,6 +153,7 @@ Marked(ty, mark, fname) ==
     [] ty.k = "vec"  -> <<mark \o "." \o fname>>
     [] ty.k = "u8"   -> "u:" \o (CASE mark = "cd" -> "201" [] mark = "fd" -> "202" [] mark = "cfn" -> "203" [] OTHER -> "204")
     [] ty.k = "bool" -> "b:true"
+    [] ty.k = "flag" -> "f:false"
     [] ty.k = "map"  -> <<"#map", <<mark, mark \o "." \o fname>> >>
     [] ty.k = "recv" -> [i \in 1..Len(D(ty.id).fields) |-> Marked(D(ty.id).fields[i].ty, mark, D(ty.id).fields[i].rust)]
     [] ty.k = "enum" -> <<FirstUnit(D(ty.id))>>   \* the generated enum's marker value is its first unit variant
@@ -163,6 +164,7 @@ TraitDefault(ty, fname) ==
     [] ty.k = "map"  -> <<"#map">>
     [] ty.k = "u8"   -> "u:0"
     [] ty.k = "bool" -> "b:false"
+    [] ty.k = "flag" -> "f:false"
     [] ty.k = "recv" -> Marked(ty, "cd", fname)
     [] ty.k = "enum" -> <<FirstUnit(D(ty.id))>>
 
@@ -184,6 +186,7 @@ DefaultValue(S, f) ==
 \* FromMeta::from_none of the field's type: <<v>> if it has a value-for-absent
 FromNone(ty) ==
   CASE ty.k = "opt" -> << <<>> >>
+    [] ty.k = "flag" -> <<"f:false">>
     [] ty.k = "recv" -> IF D(ty.id).from_none THEN <<Marked(ty, "fn", "")>> ELSE <<>>
     [] ty.k = "enum" -> IF D(ty.id).from_none THEN << <<FirstUnit(D(ty.id))>> >> ELSE <<>>
     [] OTHER -> <<>>
@@ -211,6 +214,15 @@ ConvU8(it, p) == Scalar(it, p, U8Accept, LAMBDA c : "u:" \o LitBody(c))
 ConvBool(it, p) ==
   IF it.form = "word" THEN Ok("b:true")
   ELSE Scalar(it, p, LAMBDA c : c \in {"b:true", "b:false", "s:true", "s:false"}, LAMBDA c : "b:" \o LitBody(c))
+
+\* util::Flag (flag.rs:69-83): present as a bare word, every other form rejected as `()` rejects it
+ConvFlag(it, p) ==
+  IF it.form = "word" THEN Ok("f:true")
+  ELSE Scalar(it, p, LAMBDA c : FALSE, LAMBDA c : c)
+
+\* a list-form item whose tokens are not a meta list (`name(a b ; =>)`): every conversion reaches
+\* NestedMeta::parse_meta_list first (from_meta.rs:75) and returns its syntax error
+Junk(p) == Fail(Spanned(Leaf("custom", "syntax"), SpanAt(p, "inside")))
 
 RECURSIVE ConvTy(_, _, _), ParseStruct(_, _, _, _, _, _), FoldItems(_, _, _, _, _, _), ConvEnum(_, _, _),
           ConvMap(_, _, _), FoldMap(_, _, _, _, _)
@@ -368,7 +380,8 @@ EnumFromList(E, items, pp) ==
         CASE v.style = "unit" ->
                IF it.form = "word" THEN Ok(<<v.rust>>) ELSE Fail(Spanned(Leaf("format", "non-path"), ItemSpan(p)))
           [] v.style = "struct" ->
-               IF it.form = "list"
+               IF it.form = "junk" THEN Junk(p)        \* `parse_meta_list(..)?` (variant.rs:156)
+               ELSE IF it.form = "list"
                THEN LET S == D(v.sid) r == ParseStruct(S, EnumRule(E), it.items, p, <<nm>>, ItemSpan(p))
                     IN IF r.ok THEN [r EXCEPT !.v = <<v.rust, r.v>>] ELSE r
                ELSE Fail(Spanned(Leaf("format", "non-list"), ItemSpan(p)))
@@ -378,7 +391,8 @@ EnumFromList(E, items, pp) ==
 
 ConvEnum(E, it, p) ==
   MapErr(
-    CASE it.form = "list" -> EnumFromList(E, it.items, p)
+    CASE it.form = "junk" -> Junk(p)
+      [] it.form = "list" -> EnumFromList(E, it.items, p)
       [] it.form = "word" ->
            IF WordVariant(E) # 0 THEN Ok(<<E.variants[WordVariant(E)].rust>>)
            ELSE IF E.from_word THEN Ok(<<FirstUnit(E)>>)
@@ -413,7 +427,9 @@ ConvMap(it, p, dummy) ==
     LAMBDA e : Spanned(e, ItemSpan(p)))
 
 ConvTy(ty, it, p) ==
-  CASE ty.k = "val"  -> ConvVal(it, p)
+  CASE it.form = "junk" /\ ty.k # "enum" -> Junk(p)
+    [] ty.k = "flag" -> ConvFlag(it, p)
+    [] ty.k = "val"  -> ConvVal(it, p)
     [] ty.k = "opt"  -> LET r == ConvVal(it, p) IN IF r.ok THEN [r EXCEPT !.v = <<r.v>>] ELSE r
     [] ty.k = "u8"   -> ConvU8(it, p)
     [] ty.k = "bool" -> ConvBool(it, p)
@@ -481,7 +497,8 @@ AttrSyntaxErr(a, what) == Spanned(Leaf("custom", what), SpanAt(<<a>>, "attr"))
 OtherAttr ==
   /\ ~done /\ ~open /\ IsElement /\ Len(attrs) < R.max_attrs
   /\ \E path \in InputPaths \cup ForeignPaths, form \in {"word", "nv", "junk"} :
-       /\ (path \in InputPaths /\ path # R.attr_names[1]) => form = "word"   \* bound: one handled name takes every form
+       /\ (path \in InputPaths /\ path # R.attr_names[1]) => form = "word"
+       /\ (R.attr_names = <<>>) => form \in {"word", "nv"}   \* bound: one handled name takes every form
        /\ LET a == Len(attrs) + 1 IN
           /\ attrs' = Append(attrs, [path |-> path, form |-> form, items |-> <<>>])
           /\ IF Handled(path)
